@@ -48,6 +48,7 @@ class SegState:
         self.ever_published = set()
         self.tmp = {}                         # shard -> bytearray of the tmp index being written
         self.snap_hash = {}                   # (shard,label) -> {file: (size,hash)} first snapshot after publication
+        self.failed_io = {}                   # (shard,label) -> description of a write/fsync/open of one of its files that failed
 
 
 def check(plan, results):
@@ -85,7 +86,15 @@ def check(plan, results):
                 continue
             path, op = e["path"], e["op"]
             if e.get("errno"):
-                continue  # the operation was failed by the fault plan and did not happen
+                # the operation was failed by the fault plan and did not happen - but a segment one of whose files could
+                # not be created, written or synced is incomplete: it must never be named by the index
+                mf = SEG.match(path)
+                # (only the files that carry the events: column data, their block index, the zone table and the
+                # context index; filters, catalogs and ladders are best-effort accelerators - a flush that cannot
+                # build one still publishes a fully readable segment, and readers fall back to scanning)
+                if mf and mf.group(3) and op in ("open", "write", "fsync") and mf.group(3).rsplit(".", 1)[-1] in ("col", "zfc", "zones", "idx"):
+                    S.failed_io.setdefault((mf.group(1), mf.group(2)), f"{op} of {mf.group(3)} failed (errno {e.get('errno')})")
+                continue
             mi = IDX.match(path)
             if mi:
                 sh, is_tmp = mi.group(1), bool(mi.group(2))
@@ -111,6 +120,8 @@ def check(plan, results):
                                 key = (sh, lab)
                                 S.ever_published.add(key)
                                 S.published.setdefault(key, dict(S.files.get(key, {})))
+                                if key in S.failed_io:
+                                    v("incomplete-segment", li, f"{sh}/{lab}: named by the index although {S.failed_io[key]}", step=cur_step, label=lab)
                                 if lab not in S.dirs[sh]:
                                     v("index-names-missing-dir", li, f"{sh}: index now names {lab} but no such directory was created", step=cur_step, label=lab)
                         S.index[sh] = new
@@ -137,11 +148,17 @@ def check(plan, results):
                     S.files.pop(key, None)
                     S.published.pop(key, None)
                     S.snap_hash.pop(key, None)
+                    S.failed_io.pop(key, None)
                 continue
             # operation on a file inside a segment directory
             mutating = op in ("write", "truncate", "unlink", "rename", "link") or (
                 op == "open" and (e.get("creat") or e.get("trunc") or e.get("append")))
             if not mutating:
+                continue
+            if op == "write" and lab not in S.dirs[sh]:
+                # a write through a descriptor that is still open on a file of a directory that has been removed since
+                # (the clean-up of a failed compaction run races the last queued write of that run): it reaches no file
+                # any reader can see and belongs to no current segment
                 continue
             if named:
                 v("mutated-published", li, f"{path}: {op} while the segment is named by the index", step=cur_step, label=lab)
